@@ -33,6 +33,8 @@ type World struct {
 	Specs     map[string]*SpecFunc
 	SpecList  []*SpecFunc
 	Axioms    []*Axiom
+	FieldRanges map[string]FieldRange
+	FieldInvs   []*FieldInv
 
 	Rewrites []string
 	LoadSecs float64
@@ -95,7 +97,7 @@ func rewriteSplitSeq(fset *token.FileSet, f *ast.File, w *World) {
 func loadWorld(repo, verif string, patterns []string, overlay map[string][]byte) (*World, error) {
 	w := &World{RepoDir: repo, VerifDir: verif, Fset: token.NewFileSet(), Pkgs: map[string]*packages.Package{},
 		SSAPkgs: map[string]*ssa.Package{}, Contracts: map[string]*Contract{}, Stubs: map[string]*Contract{},
-		Specs: map[string]*SpecFunc{}, modCache: map[*ssa.Function]*modSet{}}
+		Specs: map[string]*SpecFunc{}, modCache: map[*ssa.Function]*modSet{}, FieldRanges: map[string]FieldRange{}}
 	cfg := &packages.Config{
 		Mode:       packages.LoadAllSyntax,
 		Dir:        repo,
